@@ -28,7 +28,7 @@ unconditionally, before/after ..." from an exact match; an unrecognised shape ca
 import ast, inspect, sys
 import translate as T
 
-METHODS = ("serialize", "deserialize", "add", "dump", "dumps", "load", "loads")
+METHODS = ("serialize", "deserialize", "add", "dump", "dumps", "load", "loads", "_add_1_1")
 NESTED = ("serialize", "deserialize", "add", "set_current_version", "_add_1_1", "load", "dump", "parse_file", "build_file", "_get_parser")
 
 
